@@ -174,7 +174,9 @@ func (w *world) apply(o op) outcome {
 				Amount: sdk.Coin{Denom: denomNames[o.Dn], Amount: sdkmath.NewIntFromBigInt(o.Amt)}, Recipient: rcp})
 			if e == nil {
 				out.Ct = r.CompletionTime.UnixNano()
-				out.Ret = r.Amount.Amount.BigInt()
+				if !r.Amount.Amount.IsNil() {
+					out.Ret = r.Amount.Amount.BigInt()
+				}
 			}
 			return e
 		})
